@@ -472,6 +472,27 @@ func init() {
 		reg(&explore.Suite{Name: fmt.Sprintf("minread5-d%d", d), Cfg: sim.Config{Voters: 5}, Seed: minRead5,
 			Budget: sim.Budget{Beats: 3, Writes: 1, Reads: 1, Reorders: -1, Splits: 1, Deviations: d}})
 	}
+	// slow state machine: taking a snapshot (and restoring one) takes environment time
+	for d := 0; d <= 4; d++ {
+		reg(&explore.Suite{Name: fmt.Sprintf("slowsnap3-d%d", d), Cfg: sim.Config{Voters: 3, SnapAt: 2, HoldFsm: "snapshot,restore"}, Seed: seedLeader3, Monitors: snapDurMonitors,
+			Budget: sim.Budget{Timeouts: 2, Elapses: 2, Beats: 2, Writes: 3, Cuts: 2, Crashes: 1, Restarts: 1, Reorders: -1, Splits: 1, Deviations: d}})
+	}
+	// S-restoring: as S-stalesuffix, then the partition moves (n2 is cut off
+	// instead of n0), stale messages are lost, and n0 has received the complete
+	// snapshot of n1 and is inside Restore; a retransmission of the last chunk
+	// is on its way.
+	restoring := append(append([]sim.Event{}, staleSuffix...), sim.MustParse("heal", "isolate n2",
+		"drop 0>1:AE#2", "drop 0>1:AE#3", "drop 0>2:AE#2", "drop 0>2:AE#3", "drop 1>0:RV#0", "drop 1>0:RV#1", "drop 1>0:AE#0", "drop 1>0:AE#1", "drop 1>0:AE#2", "drop 1>0:AE#3",
+		"deliver 1>0:IS#0")...)
+	for d := 0; d <= 4; d++ {
+		reg(&explore.Suite{Name: fmt.Sprintf("restoring3-d%d", d), Cfg: sim.Config{Voters: 3, SnapAt: 2, HoldFsm: "restore"}, Seed: restoring, Monitors: snapDurMonitors,
+			Budget: sim.Budget{Timeouts: 1, Elapses: 1, Beats: 2, Writes: 1, Cuts: 1, Crashes: 1, Reorders: -1, Splits: 1, Deviations: d}})
+	}
+	// slow state machine: Restore takes environment time (the lock is released meanwhile)
+	for d := 0; d <= 4; d++ {
+		reg(&explore.Suite{Name: fmt.Sprintf("slowrestore3-d%d", d), Cfg: sim.Config{Voters: 3, SnapAt: 2, HoldFsm: "restore"}, Seed: staleSuffix, Monitors: snapDurMonitors,
+			Budget: sim.Budget{Timeouts: 1, Elapses: 1, Beats: 3, Writes: 1, Cuts: 1, Reorders: -1, Splits: 1, Deviations: d}})
+	}
 	for d := 0; d <= 4; d++ {
 		reg(&explore.Suite{Name: fmt.Sprintf("nvread5-d%d", d), Cfg: sim.Config{Voters: 3, Spares: 2}, Seed: seedNonVoters, Monitors: memberMonitors,
 			Budget: sim.Budget{Beats: 1, Writes: 1, Reads: 1, Reorders: -1, Splits: 1, Deviations: d}})
